@@ -123,6 +123,7 @@ func CheckC03(e *fw.Env, l *Lab) {
 			plan   altstack.Plan
 			appErr string
 			name   string
+			panics bool // the dependency panics instead of returning an error
 		}
 		var faults []fault
 		for _, s := range sites {
@@ -131,6 +132,12 @@ func CheckC03(e *fw.Env, l *Lab) {
 			}
 		}
 		faults = append(faults, fault{appErr: "before", name: "app#error-ack"}, fault{appErr: "after", name: "app#error-ack-after-partial-work"})
+		// a dependency that panics (the bridge modules do on some inputs): the panic may propagate
+		// (the transaction is aborted, nothing is committed) or become an error acknowledgement,
+		// but the packet is never acknowledged as successful
+		for _, s := range sites {
+			faults = append(faults, fault{plan: altstack.Plan{s: counts[s]}, name: fmt.Sprintf("panic:%s#%d", s, counts[s]), panics: true})
+		}
 		if e.Thorough() {
 			// ordered pairs of distinct sites (the second only matters if the first is not reached)
 			for i, a := range sites {
@@ -149,12 +156,15 @@ func CheckC03(e *fw.Env, l *Lab) {
 			for _, mode := range []run.Mode{modeC, modeH} {
 				st.Rec.Reset(f.plan)
 				st.Rec.AppErr = f.appErr
+				st.Rec.Panic = f.panics
 				ctx, _ := base.CacheContext()
 				before := w.StoreDigest(ctx)["orbiter"]
 				e.Log(map[string]any{"shape": sh.Name, "fault": f.name, "mode": mode.Kind})
 				o := run.Do(w, ctx, mk(), mode)
 				e.Res.Eval()
-				MonPanic(e.Res, o)
+				if !f.panics {
+					MonPanic(e.Res, o)
+				}
 				fired := append([]string(nil), st.Rec.Fired...)
 				wtn := map[string]any{"shape": sh.Name, "fault": f.name, "mode": mode.Kind, "fired": fired, "outcome": o.Res.String(), "delta": o.Delta.String(), "calls": len(st.Rec.Calls)}
 				if len(fired) == 0 {
@@ -262,6 +272,23 @@ func naturalFailures(e *fw.Env) {
 				return r
 			}()}},
 	}
+	// refusals that are rules of the module itself: a success acknowledgement means the error
+	// was lost (or the step skipped) on the way
+	pauseFee := func(ctx sdk.Context) error { return PauseAction(w, ctx, "ACTION_FEE") }
+	cases = append(cases,
+		nat{"own-rule:action-without-controller", nil, world.USDC, big.NewInt(1_000_000), spec.Spec{Route: internal}},
+		nat{"own-rule:fee-then-action-without-controller", nil, world.USDC, big.NewInt(1_000_000), spec.Spec{Route: internal}},
+		nat{"own-rule:fees-equal-to-the-amount", nil, world.USDC, big.NewInt(1_000_000), spec.Spec{HasFee: true, Fees: []spec.Fee{{Recipient: rc[1], Amount: "1000000"}}, Route: cctp}},
+		nat{"own-rule:fees-above-the-amount", nil, world.USDN, big.NewInt(1_000_000), spec.Spec{HasFee: true, Fees: []spec.Fee{{Recipient: rc[1], IsBPS: true, BPS: 6000}, {Recipient: rc[2], Amount: "400001"}}, Route: internal}},
+		nat{"own-rule:paused-fee-action", pauseFee, world.USDC, big.NewInt(1_000_000), spec.Spec{HasFee: true, Fees: []spec.Fee{{Recipient: rc[1], IsBPS: true, BPS: 10}}, Route: internal}},
+		nat{"own-rule:paused-protocol", func(ctx sdk.Context) error { return PauseProtocol(w, ctx, "PROTOCOL_CCTP") }, world.USDC, big.NewInt(1_000_000), spec.Spec{HasFee: true, Fees: []spec.Fee{{Recipient: rc[1], IsBPS: true, BPS: 10}}, Route: cctp}},
+		nat{"own-rule:paused-counterparty", func(ctx sdk.Context) error { return PauseCrossChains(w, ctx, "PROTOCOL_HYPERLANE", []string{"1"}) }, world.USDC, big.NewInt(1_000_000), spec.Spec{Route: hyp}},
+	)
+	feeOne := [][]spec.Fee{{{Recipient: rc[1], IsBPS: true, BPS: 100}}}
+	memoOverride := map[string]string{
+		"own-rule:action-without-controller":          actionsMemo([]string{"swap"}, nil, internal),
+		"own-rule:fee-then-action-without-controller": actionsMemo([]string{"fee", "swap"}, feeOne, internal),
+	}
 	for _, c := range cases {
 		ctx, _ := l.Base.CacheContext()
 		if c.setup != nil {
@@ -272,6 +299,9 @@ func naturalFailures(e *fw.Env) {
 		}
 		s := c.spec
 		t := l.NewTransfer(e.R, c.denom, c.amt, &s)
+		if m, ok := memoOverride[c.name]; ok {
+			t.Spec, t.Memo = nil, m
+		}
 		before := w.StoreDigest(ctx)["orbiter"]
 		o := run.Do(w, ctx, t, run.Mode{Kind: "H"})
 		e.Res.Eval()
@@ -281,11 +311,11 @@ func naturalFailures(e *fw.Env) {
 		case o.Res.Panic != nil || o.Res.Err != nil:
 		case o.Res.Ack == nil:
 			e.Res.Violate(fw.Violation{Property: "C03", Kind: "no-acknowledgement-after-failure", Tags: map[string]string{"site": "natural:" + c.name}, Detail: c.name, Witness: wtn})
-		case o.Success() && strings.HasPrefix(c.name, "oversized-"):
+		case o.Success() && (strings.HasPrefix(c.name, "oversized-") || strings.HasPrefix(c.name, "own-rule:")):
 			// the refusal is a rule of the module itself (default limit 0), not of a dependency: a
 			// success acknowledgement means the error was lost on the way
 			e.Res.Violate(fw.Violation{Property: "C03", Kind: "error-swallowed", Tags: map[string]string{"site": "natural:" + c.name},
-				Detail: "the pre-transfer hook must refuse this packet, yet it is acknowledged as successful: " + o.Delta.String(), Witness: wtn})
+				Detail: "the module itself must refuse this packet, yet it is acknowledged as successful: " + o.Delta.String(), Witness: wtn})
 		case o.Success():
 			e.Res.Inconc("natural failure %s did not occur (transfer succeeded)", c.name)
 		default:
